@@ -16,3 +16,16 @@ Definition known_C05_par (P : list rule) : bool := existsb par_unsupported P.
 (* C05-negation-ignored: the naive, semi-naive and parallel strategies never read negative_premise. *)
 Definition known_C05_neg (P : list rule) : bool :=
   existsb (fun r => negb (match negp r with [] => true | _ => false end)) P.
+
+(* C05-negation-single-pass: the provenance strategy evaluates the rules with negated atoms in ONE pass
+   after the positive fixpoint, so a conclusion of such a rule can feed nothing.  Class: some conclusion of
+   a rule with negated atoms is position-wise compatible (equal constants, or a variable on either side)
+   with a premise or a negated atom of some rule. *)
+Definition term_compat (t u : term) : bool :=
+  match t, u with C a, C b => N.eqb a b | _, _ => true end.
+Definition atom_compat (a b : atom) : bool :=
+  term_compat (a_s a) (a_s b) && term_compat (a_p a) (a_p b) && term_compat (a_o a) (a_o b).
+Definition has_neg (r : rule) : bool := negb (match negp r with [] => true | _ => false end).
+Definition known_C05_neg_feed (P : list rule) : bool :=
+  existsb (fun r1 => has_neg r1 &&
+                     existsb (fun c => existsb (fun r2 => existsb (atom_compat c) (prem r2 ++ negp r2)) P) (concl r1)) P.
